@@ -34,6 +34,9 @@ pub struct VmCase {
     pub parent_memory: Option<Vec<Word>>,
     /// Initial repeat stack (up slots with counter 0, down slots with counter = amount).
     pub repeat: Vec<Slot>,
+    /// Initial program counter (a machine that is continued, or entered mid-program / at / past the end).
+    #[serde(default)]
+    pub pc: usize,
     pub solutions: Vec<Solution>,
     pub index: usize,
     pub pre: ViewSpec,
@@ -56,6 +59,7 @@ impl VmCase {
     pub fn hash(&self) -> u64 {
         let mut h = crate::rng::fnv(self.ops.as_bytes());
         h = crate::rng::mix(h, crate::rng::fnv_words(&self.stack));
+        h = crate::rng::mix(h, self.pc as u64);
         h = crate::rng::mix(h, crate::rng::fnv_words(&self.memory));
         h = crate::rng::mix(h, self.limit);
         h = crate::rng::mix(h, self.repeat.len() as u64 + ((self.parent_memory.is_some() as u64) << 20));
@@ -553,12 +557,13 @@ pub fn build_vm(case: &VmCase) -> Vm {
         vm.parent_memory = vec![Arc::new(Memory::try_from(p.clone()).expect("parent memory within bounds"))];
     }
     vm.repeat = build_repeat(&case.repeat);
+    vm.pc = case.pc;
     vm
 }
 
 pub fn build_machine(case: &VmCase) -> Machine {
     Machine {
-        pc: 0,
+        pc: case.pc,
         stack: case.stack.clone(),
         mem: case.memory.clone(),
         parent: case.parent_memory.clone().map(Arc::new),
